@@ -719,10 +719,16 @@ fn conc_round(round: u64, seed: u64, threads: usize, guards: usize, tick_ns: u64
     trace::ev(json!({"ev": "Reset", "round": round}));
     let mut gid = 0u64;
     let mut completed = 0u64;
+    // total before the current phase (only used to choose which observations are logged in detail;
+    // the trace specification recomputes it)
+    let mut base_total = 0i64;
+    let mut base_any = false;
+    let mut closes_during = 0u64;
     let mut panicked = false;
     for _phase in 0..2 {
         // start the guards: per thread `guards` of them, in up to 3 groups with clock advances in between
-        let mut per_thread: Vec<Vec<(u64, OwnedTimerGuard, Fin)>> = (0..threads).map(|_| Vec::new()).collect();
+        // (group, guard, how it is completed, clock tick at which it was started)
+        let mut per_thread: Vec<Vec<(u64, OwnedTimerGuard, Fin, u64)>> = (0..threads).map(|_| Vec::new()).collect();
         let mut group_sizes: Vec<(u64, usize, usize)> = Vec::new(); // (group, thread, n)
         let ngroups = r.random_range(1..=3usize);
         for gi in 0..ngroups {
@@ -739,7 +745,7 @@ fn conc_round(round: u64, seed: u64, threads: usize, guards: usize, tick_ns: u64
                         3 => Fin::Unwind,
                         _ => Fin::Drop,
                     };
-                    mine.push((gid, sw.start_owned(), fin));
+                    mine.push((gid, sw.start_owned(), fin, clock.now));
                 }
                 trace::ev(json!({"ev": "Start", "g": gid, "t": t, "n": n}));
                 group_sizes.push((gid, t, n));
@@ -753,17 +759,30 @@ fn conc_round(round: u64, seed: u64, threads: usize, guards: usize, tick_ns: u64
         }
         // complete all guards at the same moment on `threads` threads; nothing is logged while they
         // run (the log's mutex would pace them)
-        let barrier = std::sync::Barrier::new(threads);
+        let barrier = std::sync::Barrier::new(threads + 1);
+        // span ticks of the kept completions that have been started / have returned so far
+        let started_sum = std::sync::atomic::AtomicU64::new(0);
+        let done_sum = std::sync::atomic::AtomicU64::new(0);
+        let threads_done = std::sync::atomic::AtomicUsize::new(0);
+        let now_tick = clock.now;
+        let mut samples: Vec<(u64, i64, u64)> = Vec::new(); // closes observed while the completers run: (lo, value, hi)
+        let mut offending: Option<(u64, i64, u64)> = None;
+        let mut nsamples = 0u64;
         let results: Vec<Result<Vec<(u64, u64, u64, u64)>, String>> = std::thread::scope(|s| {
             let hs: Vec<_> = per_thread
                 .into_iter()
                 .map(|mine| {
-                    let barrier = &barrier;
+                    let (barrier, started_sum, done_sum, threads_done) = (&barrier, &started_sum, &done_sum, &threads_done);
                     s.spawn(move || {
                         barrier.wait();
-                        util::catch(move || {
+                        let r = util::catch(move || {
                             let mut per_group: Vec<(u64, u64, u64, u64)> = Vec::new(); // (group, kept, discarded, unwound)
-                            for (g, guard, fin) in mine {
+                            use std::sync::atomic::Ordering::SeqCst;
+                            for (g, guard, fin, start_tick) in mine {
+                                let span = now_tick - start_tick;
+                                if !matches!(fin, Fin::Discard) {
+                                    started_sum.fetch_add(span, SeqCst);
+                                }
                                 if per_group.last().map(|x| x.0) != Some(g) {
                                     per_group.push((g, 0, 0, 0));
                                 }
@@ -786,14 +805,50 @@ fn conc_round(round: u64, seed: u64, threads: usize, guards: usize, tick_ns: u64
                                         e.3 += 1
                                     }
                                 }
+                                if !matches!(fin, Fin::Discard) {
+                                    done_sum.fetch_add(span, SeqCst);
+                                }
                             }
                             per_group
-                        })
+                        });
+                        threads_done.fetch_add(1, std::sync::atomic::Ordering::SeqCst);
+                        r
                     })
                 })
                 .collect();
+            // meanwhile this thread closes the stopwatch by reference, again and again: every value must
+            // lie between what had been completed before the close started and what had been started
+            // before it returned (relative to the total before this phase, which the trace spec knows)
+            {
+                use std::sync::atomic::Ordering::SeqCst;
+                let swr: &Stopwatch = &sw;
+                barrier.wait();
+                while threads_done.load(SeqCst) < threads {
+                    let lo = done_sum.load(SeqCst);
+                    let v = match util::catch(|| swr.close()) {
+                        Ok(v) => clock.opt_ticks(v),
+                        Err(_) => -3,
+                    };
+                    let hi = started_sum.load(SeqCst);
+                    nsamples += 1;
+                    let base = base_total;
+                    let ok = if v < 0 { v == -1 && !base_any && lo == 0 } else { base + lo as i64 <= v && v <= base + hi as i64 };
+                    if !ok && offending.is_none() {
+                        offending = Some((lo, v, hi));
+                    } else if samples.len() < 3 && nsamples % 7 == 1 {
+                        samples.push((lo, v, hi));
+                    }
+                }
+            }
             hs.into_iter().map(|h| h.join().expect("tool: join")).collect()
         });
+        closes_during += nsamples;
+        if let Some(o) = offending {
+            samples.insert(0, o);
+        }
+        for (lo, v, hi) in &samples {
+            trace::ev(json!({"ev": "CloseDuring", "lo": lo, "total": v, "hi": hi}));
+        }
         for (t, res) in results.into_iter().enumerate() {
             match res {
                 Ok(per_group) => {
@@ -817,12 +872,16 @@ fn conc_round(round: u64, seed: u64, threads: usize, guards: usize, tick_ns: u64
             }
         };
         trace::ev(json!({"ev": "Close", "total": total}));
+        base_total = total.max(0);
+        base_any = total >= 0;
         if r.random_bool(0.3) {
             sw.clear();
             trace::ev(json!({"ev": "Clear"}));
+            base_total = 0;
+            base_any = false;
         }
     }
-    json!({"round": round, "seed": seed, "threads": threads, "guards_per_thread": guards, "completed": completed, "panicked": panicked})
+    json!({"round": round, "seed": seed, "threads": threads, "guards_per_thread": guards, "completed": completed, "closes_while_completing": closes_during, "panicked": panicked})
 }
 
 fn cmd_conc(a: &HashMap<String, String>) {
